@@ -185,8 +185,31 @@ def load_findings(pid: str):
     return [f for f in data.get("findings", []) if pid in f.get("properties", [f.get("property")])]
 
 
+_CASES = {}
+COLLECTED = {}
+
+
+def case_key(features: dict, signature: str):
+    """Identity of one failing input of the enumerated operation universe: operation, naming mode, what fails."""
+    if not features.get("op_id"):
+        return None
+    return f"{features['op_id']}|{'nosnake' if 'nosnake' in str(features.get('variant', '')) else 'snake'}|{signature}"
+
+
+def _cases_of(f):
+    name = f.get("cases_file")
+    if not name:
+        return None
+    if name not in _CASES:
+        p = VERIF / name
+        _CASES[name] = set(p.read_text().split()) if p.exists() else set()
+    return _CASES[name]
+
+
 def match_finding(findings, features: dict, signature: str):
-    """A violation is known only if an OPEN finding matches every listed feature AND the signature regex."""
+    """A violation is known only if an OPEN finding matches every listed feature AND the signature regex AND -- for
+    findings over the enumerated operation universe (cases_file) -- this very (operation, naming mode, signature) is
+    listed as failing on the unchanged tree.  VERIF_COLLECT=<ids> (maintenance only) records the keys instead."""
     for f in findings:
         if f.get("status") != "open":
             continue
@@ -194,8 +217,26 @@ def match_finding(findings, features: dict, signature: str):
             continue
         if not re.search(f.get("signature", "^$"), signature):
             continue
+        cases = _cases_of(f)
+        key = case_key(features, signature)
+        if cases is not None and key is not None:
+            if f["id"] in (os.environ.get("VERIF_COLLECT") or "").split(","):
+                COLLECTED.setdefault(f["id"], set()).add(key)
+            elif key not in cases:
+                continue
         return f
     return None
+
+
+def flush_collected():
+    d = os.environ.get("VERIF_COLLECT_DIR")
+    if not d or not COLLECTED:
+        return
+    Path(d).mkdir(parents=True, exist_ok=True)
+    for fid, keys in COLLECTED.items():
+        p = Path(d) / f"{fid}.cases"
+        old = set(p.read_text().split()) if p.exists() else set()
+        p.write_text("\n".join(sorted(old | keys)) + "\n")
 
 
 def _feat_eq(have, want):
@@ -239,6 +280,10 @@ class Verdict:
         f = match_finding(self.findings, features, signature)
         if f:
             self.known_hits[f["id"]] = self.known_hits.get(f["id"], 0) + 1
+            if os.environ.get("VERIF_DEBUG"):
+                key = (f["id"], signature, json.dumps({k: v for k, v in features.items() if v not in (False, None) and k not in ("variant", "case", "tree")}, sort_keys=True, default=str))
+                self.known_detail = getattr(self, "known_detail", {})
+                self.known_detail[key] = self.known_detail.get(key, 0) + 1
             return False
         self.violations.append({"features": features, "signature": signature, "detail": detail})
         return True
@@ -249,9 +294,12 @@ class Verdict:
 
     def finish(self, **extra_cov) -> int:
         self.cov.update(extra_cov)
+        flush_collected()
         by_id = {f["id"]: f for f in self.findings}
         for fid, n in sorted(self.known_hits.items()):
             print(f"KNOWN-FINDING: property={self.pid} {fid}: {by_id[fid]['summary']} ({n} cases)")
+        for key, n in sorted(getattr(self, "known_detail", {}).items()):
+            print(f"  [known] {n} x {key[0]} {key[1]} {key[2]}", file=sys.stderr)
         for f in self.findings:
             if f.get("status") == "open" and f["id"] not in self.known_hits and f.get("expect_hit", {}).get(self.tier, True):
                 print(f"note: open finding {f['id']} was not reproduced by this {self.tier} run", file=sys.stderr)
